@@ -1337,6 +1337,12 @@ def _krome_window_stores(ctx, pkg, fn):
             # around a loop ...: not understood)
             if base not in cands or any(isinstance(x, tuple) and x and x[0] in ("carried", "after", "acc", "unknown") for x in walk(base)):
                 return None
+            if (pos_of(base) is None or base not in cands) and any(x == val for x in walk(base)) and any(isinstance(x, tuple) and x and x[0] == "global" and x[1] == "re" for x in walk(base)):
+                return None            # the paired field, decoded through a regular expression: the number extractor is judged (_krome_regex_extractor)
+            if pos_of(base) is None or base not in cands:
+                # not simply ANOTHER field of the line (a call of a helper this rule does not read, ..): where the text comes from is not understood
+                ctx.unrec("R4", f"KROME:{which}:field", W, f"cannot see which field of the line self.{f.target} is decoded from: {show(base)[:100]}")
+                continue
             ctx.bad("R4", f"KROME:{which}:field", W, f"self.{f.target} is decoded from {show(base)[:80]}, not from the field paired with the keyword {which!r}", found=show(base)[:100])
             continue
         decided += 1
